@@ -102,11 +102,18 @@ def hyps_of(o, *idx):
     return h
 
 
-def real_call(sats, params):
+LAYOUTS = (("So", "Sw", "Sg"), ("So", "Sg", "Sw"), ("Sg", "Sw", "So"))
+
+
+def real_call(sats, params, layout=("So", "Sw", "Sg")):
+    """sats: (So, Sw, Sg) triples; the record array's FIELD ORDER is `layout` (fields are looked up by name, so every
+    order is the same input - the function's own docstring lists So, Sg, Sw)"""
     import numpy as np
     f = real(RP)
     Pc = real(FP + "RelPermParams")
-    arr = np.array([tuple(r) for r in sats], dtype=[("So", "f8"), ("Sw", "f8"), ("Sg", "f8")])
+    arr = np.zeros(len(sats), dtype=[(nm, "f8") for nm in layout])
+    for col, nm in enumerate(("So", "Sw", "Sg")):
+        arr[nm] = [r[col] for r in sats]
     return f(arr, Pc(**params))
 
 
@@ -204,7 +211,7 @@ def build(ctx):
         if prm["S_or"] + prm["S_wc"] + prm["S_gc"] >= 1 or not all(1 <= prm[k] <= 6 for k in NAMES[:3]) or not all(0 <= prm[k] <= 1 for k in NAMES[3:]):
             prm = params_from({})
         plist = [prm, params_from({}), dict(params_from({}), n_o=2.0, n_w=4.0, n_g=2.0, S_or=0.25, S_wc=0.1, S_gc=0.15)]
-        for prm in plist:
+        for prm, layout in [(p_, l_) for l_ in LAYOUTS for p_ in plist]:
             sats = []
             if all(isinstance(w.get(k), (int, float)) for k in ("So", "Sw", "Sg")) and abs(w["So"] + w["Sw"] + w["Sg"] - 1) <= 1e-3:
                 sats.append((w["So"], w["Sw"], w["Sg"]))
@@ -212,9 +219,9 @@ def build(ctx):
                 for sw in np.linspace(0, 1 - so, 6):
                     sats.append((float(so), float(sw), float(1 - so - sw)))
             try:
-                k = real_call(sats, prm)
+                k = real_call(sats, prm, layout)
             except Exception as e:  # noqa: BLE001
-                return {"reproduced": True, "input": {"params": prm, "saturations": sats[:3]}, "observed": f"{type(e).__name__}: {e}", "required": "finite permeabilities"}
+                return {"reproduced": True, "input": {"params": prm, "saturations": sats[:3], "record_fields": list(layout)}, "observed": f"{type(e).__name__}: {e}", "required": "finite permeabilities"}
             sa = np.array(sats)
             for (name, col, ne, sr, km) in [(p_[0], i, p_[2], p_[3], p_[4]) for i, p_ in zip((0, 1, 2), PHASES)]:
                 kk = np.asarray(k[name], dtype=float)
@@ -224,7 +231,7 @@ def build(ctx):
                 mono_bad = np.diff(kk[order]) < -1e-12
                 if bad.any() or mono_bad.any():
                     i = int(np.argmax(bad)) if bad.any() else int(order[int(np.argmax(mono_bad)) + 1])
-                    return {"reproduced": True, "input": {"params": prm, "saturation": sats[i]}, "observed": {name: float(kk[i])},
+                    return {"reproduced": True, "input": {"params": prm, "saturation": dict(zip(("So", "Sw", "Sg"), sats[i])), "record_fields": list(layout)}, "observed": {name: float(kk[i])},
                             "required": f"finite, within [0, {prm[km]}], 0 at or below the residual {prm[sr]}, non-decreasing in {PHASES[col][1]}"}
         return {"reproduced": False}
 
